@@ -1,7 +1,8 @@
 """Interpreter tasks for generated task programs (C09, C11, C19).
 
 A program is a tree of nodes; a node is a dict
-  {"fl": "p"|"d",          plain task (returns an invocation) | direct task (returns the value)
+  {"fl": "p"|"d"|"c",      plain task (returns an invocation) | direct task (returns the value) | plain task with
+                           running concurrency control TASK + reroute (n_c0: one execution RUNNING at a time)
    "mr": 0|1|2,            max_retries of the task that runs the node
    "sc": ["ret", v] | ["slow", seconds, v] | ["retry_until", k, v] | ["always_retry"] | ["fail", msg],
    "kids": [nodes], "call": "single"|"group"}
@@ -30,7 +31,7 @@ def reset() -> None:
 
 
 def _call_child(kid: dict, path: str) -> Any:
-    t = STATE["tasks"][(kid["fl"], kid["mr"])]
+    t = STATE["tasks"][(kid["fl"], kid["mr"])]  # "c": a plain task under running concurrency control
     if kid["fl"] == "d":
         return t(kid, path)
     return t(kid, path).result
@@ -50,7 +51,7 @@ def _body(spec: dict, path: str) -> Any:
                 total += _call_child(kid, f"{path}.{i}")
         else:
             k0 = kids[0]
-            t = STATE["tasks"][("p", k0["mr"])]
+            t = STATE["tasks"][("c" if k0["fl"] == "c" else "p", k0["mr"])]
             grp = t.parallelize([(kid, f"{path}.{i}") for i, kid in enumerate(kids)])
             total += sum(grp.results)
     sc = spec["sc"]
@@ -101,14 +102,23 @@ def n_d2(spec: dict, path: str) -> Any:
     return _body(spec, path)
 
 
-FUNCS = {("p", 0): n_p0, ("p", 1): n_p1, ("p", 2): n_p2, ("d", 0): n_d0, ("d", 1): n_d1, ("d", 2): n_d2}
+def n_c0(spec: dict, path: str) -> Any:
+    return _body(spec, path)
+
+
+FUNCS = {("c", 0): n_c0, ("p", 0): n_p0, ("p", 1): n_p1, ("p", 2): n_p2, ("d", 0): n_d0, ("d", 1): n_d1, ("d", 2): n_d2}
 
 
 def bind_all(app: Any) -> dict:
     """Register the six node tasks on `app`; returns {(flavour, max_retries): callable}."""
     out = {}
     for (fl, mr), fn in FUNCS.items():
-        if fl == "p":
+        if fl == "c":
+            # at most one execution of this task RUNNING at a time; a blocked one is re-queued
+            from pynenc.conf.config_task import ConcurrencyControlType as CC
+
+            out[(fl, mr)] = app.task(fn, max_retries=mr, running_concurrency=CC.TASK, reroute_on_concurrency_control=True)
+        elif fl == "p":
             out[(fl, mr)] = app.task(fn, max_retries=mr)
         else:
             out[(fl, mr)] = app.direct_task(fn, max_retries=mr)
